@@ -154,7 +154,7 @@ def pairMap (pp sp : Path) : AstMap := ⟨[(pp, sp)], [], [], []⟩
 /-! ### shallow matching -/
 
 /-- `metas_match`; `pf` is the field the pattern node currently carries (its own, or `"none"` while it is
-the trimmed root / an operand of a commutative operator) -/
+the trimmed root) -/
 def metasMatch (cm : Bool) (pf : String) (s : T) : Bool :=
   (cm && pf = s.field) || !cm || pf = "none"
 
@@ -339,7 +339,9 @@ def deep (cm : Bool) (pf : String) (pp : Path) (p : T) (sp : Path) (s : T) : Lis
     | .binflex =>
       match kids with
       | [l, op, r] =>
-        match shallowMatch cm pf pp (.mk kind field flds [l, op, r]) sp s with
+        -- `deep_find_match_BinOp` calls `deep_find_match_binflex(ins, std, False)`: from a `+` / `*` node
+        -- downwards (the node itself and everything below both operands) no AST field is compared
+        match shallowMatch false pf pp (.mk kind field flds [l, op, r]) sp s with
         | none => []
         | some b =>
           match s.kids with
@@ -348,9 +350,8 @@ def deep (cm : Bool) (pf : String) (pp : Path) (p : T) (sp : Path) (s : T) : Lis
             | none => []
             | some o =>
               let base := b.merged o
-              -- the operands carry the field "none" while they are matched (they may swap sides)
-              binflexHelper base (deep cm "none" (pp ++ [0]) l (sp ++ [0]) sl) (deep cm "none" (pp ++ [2]) r (sp ++ [2]) sr)
-              ++ binflexHelper base (deep cm "none" (pp ++ [0]) l (sp ++ [2]) sr) (deep cm "none" (pp ++ [2]) r (sp ++ [0]) sl)
+              binflexHelper base (deep false l.field (pp ++ [0]) l (sp ++ [0]) sl) (deep false r.field (pp ++ [2]) r (sp ++ [2]) sr)
+              ++ binflexHelper base (deep false l.field (pp ++ [0]) l (sp ++ [2]) sr) (deep false r.field (pp ++ [2]) r (sp ++ [0]) sl)
           | _ => []
       | _ => []
 
